@@ -263,6 +263,25 @@ class Body:
         return segs
 
 
+_KW = {'if', 'while', 'match', 'for', 'loop', 'return', 'Some', 'None', 'Ok', 'Err', 'fn', 'in', 'as', 'let', 'mut', 'unsafe', 'Self', 'self',
+       'usize', 'u64', 'u8', 'u16', 'u32', 'bool', 'Box', 'Vec', 'Option', 'Result', 'where', 'impl', 'move', 'else'}
+
+
+def called_names(raw):
+    """the calls in a function's source text, syntactically: 'Q::name' (path call, Q = last path segment before the name),
+    '.name' (method call), 'name' (bare call).  Used for the call closure of a property's cone."""
+    code = re.sub(r'//[^\n]*', '', raw)
+    bo = code.find('{')
+    code = code[bo:] if bo >= 0 else ''
+    out = set()
+    for m in re.finditer(r'(?:([A-Za-z_][A-Za-z0-9_]*)\s*(?:<[^<>()]*>)?\s*::\s*|(\.)\s*)?([A-Za-z_][A-Za-z0-9_]*)\s*(?:::\s*<[^>()]*>\s*)?\(', code):
+        q, dot, nm = m.group(1), m.group(2), m.group(3)
+        if nm in _KW:
+            continue
+        out.add(('%s::%s' % (q, nm)) if q else (('.' + nm) if dot else nm))
+    return sorted(out)
+
+
 def weave_fn(src, container, name, nth, opts, subs, mode, sig_only=False):
     """returns (woven_text, record)"""
     s, o, c = src.find_fn(container, name, nth)
@@ -526,6 +545,7 @@ def weave_fn(src, container, name, nth, opts, subs, mode, sig_only=False):
         'props': [p for p in opts.get('props', '').split(',') if p],
         'rewrites': rewrites,
         'sha': hashlib.sha256(raw.encode()).hexdigest()[:16],
+        'calls': called_names(raw) if not sig_only else [],
     }
     return out, rec, linemap
 
